@@ -255,7 +255,7 @@ static carquet_status_t read_footer(carquet_reader_t* reader, carquet_error_t* e
 
     /* Get footer size */
     uint32_t footer_size = carquet_read_u32_le(footer_tail);
-    if (footer_size > reader->file_size - 8) {
+    if (footer_size > reader->file_size - 12) {
         CARQUET_SET_ERROR(error, CARQUET_ERROR_INVALID_FOOTER, "Footer size too large");
         return CARQUET_ERROR_INVALID_FOOTER;
     }
@@ -326,7 +326,7 @@ static carquet_status_t read_footer_mmap(carquet_reader_t* reader, carquet_error
 
     /* Get footer size */
     uint32_t footer_size = carquet_read_u32_le(end - 8);
-    if (footer_size > file_size - 8) {
+    if (footer_size > file_size - 12) {
         CARQUET_SET_ERROR(error, CARQUET_ERROR_INVALID_FOOTER, "Footer size too large");
         return CARQUET_ERROR_INVALID_FOOTER;
     }
